@@ -38,6 +38,13 @@ type ExtSpec struct {
 	Msg []byte `json:"msg"`
 }
 
+// OverrideExt is extension 112 naming type and version for one target.
+func OverrideExt(target, typ, version string) ExtSpec {
+	b, _ := proto.Marshal(&configapi.TargetVersionOverrides{Overrides: map[string]*configapi.TargetTypeVersion{
+		target: {TargetType: configapi.TargetType(typ), TargetVersion: configapi.TargetVersion(version)}}})
+	return ExtSpec{ID: uint32(configapi.TargetVersionOverridesID), Msg: b}
+}
+
 // Build renders the request.
 func (s SetSpec) Build() *gpb.SetRequest {
 	req := &gpb.SetRequest{}
@@ -113,6 +120,9 @@ func (s SetSpec) Describe() string {
 	mode := "async"
 	if s.Sync {
 		mode = "sync"
+	}
+	if s.Serializable {
+		mode += ",serializable"
 	}
 	pfx := ""
 	if s.PrefixTarget != "" || len(s.PrefixElems) > 0 {
